@@ -278,9 +278,10 @@ def make_device_handler(table):
     return handler
 
 
-def build_registry(desc):
+def build_registry(desc, short=False):
     from annet.mesh import MeshRulesRegistry, separate_ports, united_ports
-    reg = MeshRulesRegistry()
+    short = short or bool(desc.get("short"))
+    reg = MeshRulesRegistry(match_short_name=True) if short else MeshRulesRegistry()
     for rule in desc.get("rules", []):
         k = rule["k"]
         if k == "direct":
@@ -296,7 +297,7 @@ def build_registry(desc):
         else:
             raise AssertionError(k)
     for sub in desc.get("nested", []):
-        reg.include(build_registry(sub))
+        reg.include(build_registry(sub, short))
     return reg
 
 
@@ -352,7 +353,7 @@ def run_impl(topo, desc, dev):
     """-> {"status": "ok", "cfg": normalised, "peers_in_order": [...], "ops": [...]} | {"status": "error", "exc", "msg"}"""
     from annet.mesh import MeshExecutor
     st, devs = build_storage(topo)
-    reg = build_registry(desc)
+    reg = build_registry(desc, bool(topo.get("short")))
     try:
         cfg = MeshExecutor(reg, st).execute_for(devs[dev])
     except Exception as e:  # noqa: classified by the callers
@@ -367,7 +368,7 @@ def run_impl_shared(topo, desc, order):
     does) -> {dev: result as run_impl gives it}"""
     from annet.mesh import MeshExecutor
     st, devs = build_storage(topo)
-    ex = MeshExecutor(build_registry(desc), st)
+    ex = MeshExecutor(build_registry(desc, bool(topo.get("short"))), st)
     res = {}
     for dev in order:
         before = len(devs[dev].log)
@@ -832,6 +833,14 @@ def topologies(tier):
         topo([S1, S2, T1, T2], [S1, T1, 2, 1], [S2, T2, 3, 1], [T1, T2, 1, 0], [S1, S2, 1, 0], [S2, T1, 1, 0],
              base=offsets([S1, S2, T1, T2], step=1)),
     ]
+    # fully qualified names, two devices sharing their short host name; the registry compares names without the domain part
+    # (match_short_name=True)
+    S1F, T1A, T1B, S2F = "spine-1.dc1.example", "tor-1.dc1.example", "tor-1.dc2.example", "spine-2.dc2.example"
+    fq = [topo([S1F, T1A, T1B], [S1F, T1A, 1, 0], [S1F, T1B, 1, 0], base=offsets([S1F, T1A, T1B])),
+          topo([S1F, S2F, T1A, T1B], [S1F, T1A, 2, 1], [S1F, T1B, 1, 0], [S2F, T1B, 1, 0], base=offsets([S1F, S2F, T1A, T1B], step=1))]
+    for f in fq:
+        f["short"] = True
+    t["fqdn"] = fq
     t["d_single"] = two + three + four
     t["d_pair"] = [topo([S1, T1], [S1, T1, 1, 0]), topo([S1, T1], [S1, T1, 2, 1], base={T1: 1}),
                    topo([S1, T2], [S1, T2, 1, 0]), three[0]]
@@ -888,6 +897,9 @@ def _families(tier):
            for acp in ACP_MODES]
     d1 += [rule_direct(m, pp, "port", 0, A["A2"], acp) for m in ("D0", "D1", "D4") for pp in "us" for acp in ("lses", "rses")]
     fam.append(("direct-1", T["d_single"], [[r] for r in _uniq(d1)]))
+    fam.append(("short-names", T["fqdn"], [[r] for r in _uniq(
+        [rule_direct(m, pp, sel, 0, A["A0"]) for m in ("D0", "D1", "D4", "D7") for pp in "us" for sel in ("port", "lag", "svi")])]
+        + [[rule_indirect(m, sel, 0, A["A0"])] for m in ("I0", "I1", "I2") for sel in ("lo", "svi")]))
     if th:
         d1a = [rule_direct(m, pp, sel, plan, a) for m in ("D0", "D4") for pp in "us" for sel in ("port", "lag", "Rsvi")
                for plan in (0, 2) for a in attr_product()]
